@@ -260,6 +260,21 @@ pub fn phase_sweep_script(rng: &mut Rng, i: u64, prop: &str) -> Script {
     s
 }
 
+/// Deep-Huffman-code family: symbol-frequency ladders, mostly without matching (so the literal code itself is
+/// deep), at every level.
+pub fn ladder_family(rng: &mut Rng, s: &mut Script) {
+    clear_setters(s);
+    let max_len = rng.pick(&[600usize, 5000, 5000, 20_000, 70_000]);
+    let plain = gen::ladder(rng, max_len);
+    s.set("strategy", rng.pick(&[2i64, 2, 2, 0, 1, 3]));
+    s.set("level", rng.range(1, 10) as i64);
+    s.set("window_bits", 15);
+    let style = rng.next_u64();
+    let fp = rng.pick(&[0u64, 0, 10]);
+    s.ops = comp_ops(rng, plain.len(), style, &ALL_TDEFL, fp, false);
+    s.set_blob("plain", plain);
+}
+
 /// Deterministic family on a short input: a flush (or a bare call boundary) after every input position.
 pub fn flush_sweep(rng: &mut Rng, s: &mut Script, flushes: &[i64]) {
     let n = rng.range(0, 260);
@@ -283,6 +298,10 @@ pub fn gen_c02(rng: &mut Rng, i: u64, tier: Tier) -> Script {
     s.set("clauses", PC_C02 | PC_C16);
     if rng.chance(1, 60) {
         flush_sweep(rng, &mut s, &[1, 2, 3, 5, 6, 7, 8, 8]);
+        return s;
+    }
+    if rng.chance(1, 50) {
+        ladder_family(rng, &mut s);
         return s;
     }
     if rng.chance(1, 25) {
@@ -439,6 +458,10 @@ pub fn gen_c10(rng: &mut Rng, _i: u64, tier: Tier) -> Script {
     if rng.chance(1, 40) {
         let plain = boundary_family(rng, &mut s);
         s.set_blob("plain", plain);
+        return s;
+    }
+    if rng.chance(1, 25) {
+        ladder_family(rng, &mut s);
         return s;
     }
     let n = gen::plain_size(rng, if tier == Tier::Thorough { 12 } else { 6 });
